@@ -10,6 +10,17 @@
 //! `again_equal` is the code's own equality (PartialEq on Circuit and the shift, abs() equality on graphs).
 //! For the first seed of every setting BOTH payloads are logged as separate build events (`keep`), so that
 //! TLC compares them itself.  Probabilities travel as integer percent, seeds stay below 2^31.
+//!
+//!   --api N         audit item #22, N repetitions:
+//!                   * RandomPauliGadgetCircuitBuilder::weight(w) (alone, after other weight setters, followed by
+//!                     min_weight): logged with the parameters it MEANS (min = max = w), in the same group and under the
+//!                     same key as a min_weight(w).max_weight(w) build with the same seed, so that TLC's Deterministic
+//!                     compares the two objects;
+//!                   * every builder WITHOUT .seed(): straight from Default / Circuit::random_*() / ::new() with no
+//!                     parameter set (`default`: the parameters are read back from the builder's public fields) and with
+//!                     parameters set but no seed.  Such builds are `unseeded`: nothing to compare them with, but the
+//!                     returned object must satisfy the same contract (shape, promise, norm).  `sem` = false on the
+//!                     40-qubit default hidden-shift instance: its promise is out of reach of a 2^n state vector.
 
 use crate::absg::abs;
 use crate::circ::circ_json;
@@ -29,6 +40,7 @@ struct Ctx<'a> {
     pairs_logged: usize,
     settings: usize,
     gates: usize,
+    unseeded: usize,
 }
 
 impl Ctx<'_> {
@@ -40,8 +52,16 @@ impl Ctx<'_> {
 
     /// one build (twice inside `f`); `keep`: log the second payload as an event of its own
     fn build(&mut self, gen: &str, be: &str, seed: u64, params: &Value, keep: bool, f: impl FnOnce() -> Built) {
+        self.build_with(gen, be, seed, params, keep, json!({}), f)
+    }
+
+    /// `over`: fields that replace the defaults of the event head (also on a panic event)
+    fn build_with(&mut self, gen: &str, be: &str, seed: u64, params: &Value, keep: bool, over: Value, f: impl FnOnce() -> Built) {
         *self.builds.entry(gen.to_string()).or_default() += 1;
-        let head = json!({"k": "build", "gen": gen, "be": be, "seed": seed, "params": params});
+        let mut head = json!({"k": "build", "gen": gen, "be": be, "seed": seed, "params": params, "unseeded": false, "default": false, "sem": true});
+        for (k, v) in over.as_object().unwrap() {
+            head[k.as_str()] = v.clone();
+        }
         let with = |extra: Value| {
             let mut e = head.clone();
             for (k, v) in extra.as_object().unwrap() {
@@ -62,6 +82,7 @@ impl Ctx<'_> {
                     self.gates += c["gates"].as_array().map(|a| a.len()).unwrap_or(0);
                 }
                 let mut e1 = with(p1);
+                self.unseeded += e1["unseeded"].as_bool().unwrap_or(false) as usize;
                 e1["res"] = json!("ok");
                 e1["again_equal"] = json!(eq);
                 e1["keep"] = json!(keep);
@@ -133,6 +154,126 @@ fn pauli_gadget(seed: u64, q: usize, d: usize, lo: usize, hi: usize, den: usize)
     })
 }
 
+/// .weight(w) instead of .min_weight(w).max_weight(w).  how: 0 = weight alone (on the builder's default range 2..4),
+/// 1 = after min_weight(0).max_weight(q) (must override both), 2 = weight(hi) then min_weight(lo) (range lo..hi)
+fn pauli_gadget_weight(seed: u64, q: usize, d: usize, lo: usize, hi: usize, den: usize, how: u32) -> Built {
+    guarded(|| {
+        let cfg = |b: &mut quizx::generate::RandomPauliGadgetCircuitBuilder| {
+            b.seed(seed).qubits(q).depth(d).phase_denom(den);
+            match how {
+                0 => b.weight(hi),
+                1 => b.min_weight(0).max_weight(q).weight(hi),
+                _ => b.weight(hi).min_weight(lo),
+            };
+        };
+        let mut b = Circuit::random_pauli_gadget();
+        cfg(&mut b);
+        let fields_ok = b.min_weight == lo && b.max_weight == hi; // informational (the fields are public)
+        let c1 = b.build();
+        let mut b2 = Circuit::random_pauli_gadget();
+        cfg(&mut b2);
+        let c2 = b2.build();
+        let eq = c1 == c2;
+        (json!({"c": circ_json(&c1), "via_weight": how, "fields_as_meant": fields_ok}), json!({"c": circ_json(&c2), "via_weight": how, "fields_as_meant": fields_ok}), eq)
+    })
+}
+
+fn pct(x: f32) -> i64 {
+    (x as f64 * 100.0).round() as i64
+}
+
+/// builds without .seed(): the parameters as read back from the builder's public fields, and the build
+fn unseeded(gen: &str, variant: usize) -> (Value, Built) {
+    let dflt = variant == 0;
+    let fin = move |mut e: Value, params: &Value| {
+        e["params"] = params.clone();
+        e["unseeded"] = json!(true);
+        e["default"] = json!(dflt);
+        (e.clone(), e, true)
+    };
+    match gen {
+        "random_circuit" => {
+            let mut b = if variant % 2 == 0 { Circuit::random() } else { quizx::generate::RandomCircuitBuilder::default() };
+            match variant {
+                0 => {}
+                1 => {
+                    b.qubits(3).depth(12).uniform();
+                }
+                2 => {
+                    b.qubits(4).depth(9).clifford_t(0.25);
+                }
+                _ => {
+                    b.qubits(2).depth(7).p_h(0.5).p_t(0.5);
+                }
+            }
+            let params = json!({"qubits": b.qubits, "depth": b.depth, "p_cnot": pct(b.p_cnot), "p_cz": pct(b.p_cz), "p_h": pct(b.p_h),
+                                "p_s": pct(b.p_s), "p_t": pct(b.p_t), "via": 9});
+            let r = guarded(|| b.build()).map(|c| fin(json!({"c": circ_json(&c)}), &params));
+            (params, r)
+        }
+        "hidden_shift" => {
+            let mut b = if variant % 2 == 0 { Circuit::random_hidden_shift() } else { quizx::generate::RandomHiddenShiftCircuitBuilder::default() };
+            match variant {
+                0 => {}
+                1 => {
+                    b.qubits(6).clifford_depth(3).n_ccz(1);
+                }
+                2 => {
+                    b.qubits(8).clifford_depth(2).n_ccz(2);
+                }
+                _ => {
+                    b.qubits(6).clifford_depth(0).n_ccz(2);
+                }
+            }
+            let params = json!({"qubits": b.qubits, "clifford_depth": b.clifford_depth, "n_ccz": b.n_ccz});
+            let sem = b.qubits <= 8;
+            let r = guarded(|| b.build()).map(|(c, s)| fin(json!({"c": circ_json(&c), "shift": s, "full": false, "sem": sem}), &params));
+            (params, r)
+        }
+        "pauli_gadget" => {
+            let mut b = if variant % 2 == 0 { Circuit::random_pauli_gadget() } else { quizx::generate::RandomPauliGadgetCircuitBuilder::default() };
+            match variant {
+                0 => {}
+                1 => {
+                    b.qubits(5).depth(4).weight(3).phase_denom(8);
+                }
+                2 => {
+                    b.qubits(4).depth(5).min_weight(1).max_weight(4).phase_denom(3);
+                }
+                _ => {
+                    b.qubits(6).depth(3); // the default weights 2..4 and denominator
+                }
+            }
+            let params = json!({"qubits": b.qubits, "depth": b.depth, "min_weight": b.min_weight, "max_weight": b.max_weight, "phase_denom": b.phase_denom});
+            let r = guarded(|| b.build()).map(|c| fin(json!({"c": circ_json(&c)}), &params));
+            (params, r)
+        }
+        _ => {
+            let mut b = if variant % 2 == 0 { Circuit::surface_code() } else { quizx::generate::SurfaceCodeCircuitBuilder::default() };
+            if variant >= 2 {
+                b.distance(2).rounds(1);
+            }
+            let params = json!({"distance": b.distance, "rounds": b.rounds});
+            let r = guarded(|| b.build()).map(|c| fin(json!({"c": circ_json(&c)}), &params));
+            (params, r)
+        }
+    }
+}
+
+fn unseeded_state<G: quizx::graph::GraphLike>(variant: usize) -> (Value, Built) {
+    let mut b = if variant % 2 == 0 { EquatorialStabilizerStateBuilder::default() } else { EquatorialStabilizerStateBuilder::new() };
+    if variant > 0 {
+        b.qubits(variant % 5);
+    }
+    let params = json!({"qubits": b.qubits});
+    let r = guarded(|| b.build::<G>()).map(|g| {
+        let a = abs(&g);
+        let e = json!({"g": a, "scok": a["sc"].is_array(), "params": params, "unseeded": true, "default": variant == 0});
+        (e.clone(), e, true)
+    });
+    (params, r)
+}
+
 fn stab_state<G: quizx::graph::GraphLike>(seed: u64, q: usize) -> Built {
     guarded(|| {
         let mut b = EquatorialStabilizerStateBuilder::new();
@@ -163,7 +304,50 @@ pub fn record(args: &[String], seed: u64, tr: &mut Tr) -> Value {
     let want = |g: &str| gens.split(',').any(|x| x == g);
     let base = (seed % 2000) * 1000;
     let seeds: Vec<u64> = (0..nseeds).map(|i| base + i).collect();
-    let mut cx = Ctx { tr, builds: BTreeMap::new(), panics: 0, unequal: 0, pairs_logged: 0, settings: 0, gates: 0 };
+    let mut cx = Ctx { tr, builds: BTreeMap::new(), panics: 0, unequal: 0, pairs_logged: 0, settings: 0, gates: 0, unseeded: 0 };
+    let napi: usize = arg_num(args, "--api", 0);
+    if napi > 0 {
+        // ---- weight(): the same key as the min/max build of the same group
+        for rep in 0..napi as u64 {
+            for q in 1..=5usize {
+                for (lo, hi, how) in [(q.min(2), q.min(2), 0u32), (1, 1, 0), (q, q, 1), (1, 1, 1), (q.min(3), q.min(3), 1), (1, q, 2), (q.min(2), q, 2)] {
+                    let d = [3usize, 6, 2][(q + how as usize) % 3];
+                    let den = [4usize, 8, 3, 6][(q + lo + rep as usize) % 4];
+                    let s = base + 500 + rep;
+                    let params = json!({"qubits": q, "depth": d, "min_weight": lo, "max_weight": hi, "phase_denom": den});
+                    cx.begin("pauli_gadget", &params);
+                    cx.build("pauli_gadget", "", s, &params, true, || pauli_gadget(s, q, d, lo, hi, den));
+                    cx.build("pauli_gadget", "", s, &params, true, || pauli_gadget_weight(s, q, d, lo, hi, den, how));
+                }
+            }
+            // weight(w) with w > qubits: outside the quantifier, the builder refuses
+            let params = json!({"qubits": 2, "depth": 2, "min_weight": 3, "max_weight": 3, "phase_denom": 4});
+            cx.begin("pauli_gadget", &params);
+            cx.build("pauli_gadget", "", base, &params, false, || pauli_gadget_weight(base, 2, 2, 3, 3, 4, 0));
+        }
+        // ---- no seed
+        for gen in ["random_circuit", "hidden_shift", "pauli_gadget", "surface_code"] {
+            for variant in 0..4usize {
+                let reps = if gen == "surface_code" { 1 } else if gen == "hidden_shift" && variant == 0 { napi.min(2) } else { napi };
+                for _ in 0..reps {
+                    let (params, r) = unseeded(gen, variant);
+                    cx.begin(gen, &params);
+                    let head = json!({"unseeded": true, "default": variant == 0});
+                    cx.build_with(gen, "", 0, &params, false, head, || r);
+                }
+            }
+        }
+        for variant in 0..6usize {
+            for _ in 0..napi {
+                for be in ["vec", "hash"] {
+                    let (params, r) = if be == "vec" { unseeded_state::<quizx::vec_graph::Graph>(variant) } else { unseeded_state::<quizx::hash_graph::Graph>(variant) };
+                    cx.begin("stab_state", &params);
+                    let head = json!({"unseeded": true, "default": variant == 0});
+                    cx.build_with("stab_state", be, 0, &params, false, head, || r);
+                }
+            }
+        }
+    }
 
     if want("random_circuit") {
         // [p_cnot, p_cz, p_h, p_s, p_t] in percent
@@ -289,5 +473,5 @@ pub fn record(args: &[String], seed: u64, tr: &mut Tr) -> Value {
     }
 
     json!({"settings": cx.settings, "builds": cx.builds, "panics": cx.panics, "harness_unequal": cx.unequal,
-           "pairs_logged_for_tlc": cx.pairs_logged, "gates": cx.gates, "seeds_per_setting": nseeds, "seed_base": base})
+           "pairs_logged_for_tlc": cx.pairs_logged, "gates": cx.gates, "unseeded_builds": cx.unseeded, "seeds_per_setting": nseeds, "seed_base": base})
 }
